@@ -232,6 +232,8 @@ def history(rng, ncalls=None, allow_error=True):
             t.append("PRINT\n -selected_output %s\n" % rng.choice(["false", "false", "true"]))
         elif kind == "dump":
             t.append("DUMP\n -solution %d\n" % rng.choice(sols) + (" -append %s\n" % rng.choice(["true", "false"]) if rng.random() < 0.5 else ""))
+            if rng.random() < 0.4:
+                t.append("PRINT\n -dump %s\n" % rng.choice(["false", "false", "true"]))
         if kind != "dump" and rng.random() < 0.12:
             t.append("DUMP\n -solution %d\n" % rng.choice(sols) + (" -append %s\n" % rng.choice(["true", "false"]) if rng.random() < 0.4 else ""))
         t.append("END\n")
@@ -250,6 +252,8 @@ def history(rng, ncalls=None, allow_error=True):
             t.append(_react(rng, sols))
             if rng.random() < 0.1:
                 t.append("PRINT\n -selected_output %s\n" % rng.choice(["true", "false"]))
+            if rng.random() < 0.06:
+                t.append("PRINT\n -dump %s\n" % rng.choice(["true", "false"]))
             t.append("END\n")
         calls.append("".join(t))
     return calls, kinds
